@@ -22,6 +22,8 @@
 (*    ref_pencil m N D Xl W dvl   the reference pair (A, B) as tables      *)
 (*    tables_seen_b D A B lhs rhs   `solver_sees` on list tables           *)
 (*    spec_construct_b            reference + tables_seen_b in one call    *)
+(*    spec_full_b                 the FULL returned tables are (A, B)      *)
+(*  Change of units: sscale / xscale / pscale / peq                        *)
 (* ====================================================================== *)
 
 Require Import Arith List Bool QArith Qcanon.
@@ -75,6 +77,20 @@ Section PencilSpec.
     meq D d (mmul D A P) (mmul d (mmul D B P) (mdiag lam)) /\
     meq d d (mmul D (mtrans P) (mmul D B P)) mI.
 
+  (* change of units (Wave 2).  The generalised problem is homogeneous: a common factor on the
+     two sides, or on the features, changes no eigenvector direction and no eigenvalue, so the
+     absolute magnitude of the stored entries of W / L / D carries no meaning.
+       sscale c W   every stored entry multiplied by c
+       xscale s X   every feature value multiplied by s
+       pscale a b p the two tables of p multiplied by a and b *)
+  Definition sscale (c : F) (W : sparse F) : sparse F :=
+    map (fun e => match e with (r, k, v) => (r, k, c * v) end) W.
+  Definition xscale (s : F) (X : mat F) : mat F := fun f t => s * X f t.
+  Definition pscale (a b : F) (p : pencil F) : pencil F :=
+    {| p_lhs := mscale a (p_lhs p); p_rhs := mscale b (p_rhs p) |}.
+  Definition peq (p q : pencil F) : Prop :=
+    (forall i j, p_lhs p i j = p_lhs q i j) /\ (forall i j, p_rhs p i j = p_rhs q i j).
+
   (* rotation of the feature space *)
   Definition orthogonal (D : nat) (R : mat F) : Prop := meq D D (mmul D (mtrans R) R) mI.
   Definition conj_by (D : nat) (R A : mat F) : mat F := mmul D (mmul D R A) (mtrans R).
@@ -97,6 +113,16 @@ Definition ref_pencil (m : method) (N D : nat) (Xl : list (list Qc)) (W : sparse
 Definition tables_seen_b (D : nat) (A B lhs rhs : list (list Qc)) : bool :=
   let s := seen_tables D lhs rhs in
   mlist_eqb (fst s) A && mlist_eqb (snd s) B.
+
+(* the FULL tables (Wave 2): the routines are specified (fix F9, DenseSymmetricMatrixPair) to return
+   both triangles of the symmetric matrices, whichever triangle a consumer reads *)
+Definition tables_full_b (A B lhs rhs : list (list Qc)) : bool :=
+  mlist_eqb lhs A && mlist_eqb rhs B.
+
+Definition spec_full_b (m : method) (N D : nat) (Xl : list (list Qc)) (W : sparse Qc)
+           (dvl : list Qc) (lhs rhs : list (list Qc)) : bool :=
+  let r := ref_pencil m N D Xl W dvl in
+  wf_matb D D lhs && wf_matb D D rhs && tables_full_b (fst r) (snd r) lhs rhs.
 
 (* the specification run on the implementation's own output: do the tables the routine
    returned denote, for a lower-triangle reader, the pencil the property names? *)
